@@ -60,7 +60,7 @@ fn all_families() -> Vec<Box<dyn Family>> {
 }
 
 fn all_families_base() -> Vec<Box<dyn Family>> {
-  vec![Box::new(c08::C08), Box::new(c18::C18), Box::new(c09::C09), Box::new(c12::C12), Box::new(thr_ops::C19Ops), Box::new(thr_ops::C19Subjects), Box::new(thr_ops::C11), Box::new(timed::C16), Box::new(timed::C15), Box::new(c01::C01), Box::new(c05::C05Seq), Box::new(c05::C05Thr), Box::new(c06::C06), Box::new(c17::C17), Box::new(c14::C14), Box::new(c14::C14Shared), Box::new(c10::C10), Box::new(c13::C13), Box::new(c13::C13Thr), Box::new(c03::C03), Box::new(c03::C03Rsg), Box::new(c04::C04Travel), Box::new(c04::C04Handlers),
+  vec![Box::new(c08::C08), Box::new(c18::C18), Box::new(c09::C09), Box::new(c12::C12), Box::new(thr_ops::C19Ops), Box::new(thr_ops::C19Subjects), Box::new(thr_ops::C11), Box::new(timed::C16), Box::new(timed::C15), Box::new(c01::C01), Box::new(c05::C05Seq), Box::new(c05::C05Thr), Box::new(c06::C06), Box::new(c06::C06Thr), Box::new(c17::C17), Box::new(c14::C14), Box::new(c14::C14Shared), Box::new(c10::C10), Box::new(c13::C13), Box::new(c13::C13Thr), Box::new(c03::C03), Box::new(c03::C03Rsg), Box::new(c04::C04Travel), Box::new(c04::C04Handlers),
     Box::new(Only { inner: Box::new(thr_ops::C11), name: "c03-amb-threads", pred: |w| w.s("op") == "amb" }),
     Box::new(Only { inner: Box::new(c12::C12), name: "c10-replay-subject-threads", pred: |w| w.s("subject") != "behavior" }),
     Box::new(Only { inner: Box::new(thr_ops::C19Subjects), name: "c01-illformed-source-two-threads", pred: |_| true }),
@@ -148,7 +148,9 @@ fn spec_for(prop: &str) -> Option<CheckSpec> {
         "the emission during which a subscription ended is not judged, the following attempts are".into(),
         "runs that end in a self-deadlock / panic are left to C07; a livelock with an unbounded producer in the pipeline is a C06 violation".into(),
       ],
-      families: vec![FamilySpec { fam: Box::new(c06::C06), quick_runs: 400_000, thorough_runs: 6_000_000 }],
+      families: vec![FamilySpec { fam: Box::new(c06::C06), quick_runs: 400_000, thorough_runs: 6_000_000 },
+        // inner streams registered with one controller from several threads at once, then the end
+        FamilySpec { fam: Box::new(c06::C06Thr), quick_runs: 40_000, thorough_runs: 800_000 }],
       quick_cap_s: 60,
       thorough_cap_s: 900,
     }),
